@@ -746,7 +746,7 @@ def rule_negdim(ctx):
                 if cnd.op == "cmp" and cnd.a[0] == "<" and not pol and cnd.a[1] is size and tm.is_const(cnd.a[2], 0):
                     ok = True
             yield ob(R, f, "%s:alloc-size@%d" % (f.qual, k), ok, "%s allocates %s elements only where that difference is tested non-negative" % (c.callee, tm.show(size, 3)) if ok else "%s(%s): the size is a difference of lengths and nothing on the path proves it non-negative" % (c.callee, tm.show(size, 3)), node=c.node)
-    need(n >= 2, R, "difference-sized allocations not found (melody.to_cent_voicing has two)")
+    need(n >= 1, R, "difference-sized allocations not found (melody.to_cent_voicing pads the estimate by a length difference)")
 
 
 def rule_perannotation(ctx):
@@ -804,6 +804,6 @@ RULES = [
     ("C14.NONEGUARD", 3, rule_noneguard),
     ("C14.EMPTYREDUCE", 3, rule_emptyreduce),
     ("C14.EMPTYREAD", 10, rule_emptyread),
-    ("C14.NEGDIM", 2, rule_negdim),
+    ("C14.NEGDIM", 1, rule_negdim),
     ("C14.PERANNOTATION", 2, rule_perannotation),
 ]
